@@ -125,7 +125,23 @@ func symIndex(fr *frame, cells []value, idx symv) *symElemPtr {
 	it := curTT.ext(idx.t, 64, kindSigned(idx.kind))
 	inRange := curTT.cmp("bvult", it, curTT.konst(64, uint64(len(cells))))
 	if !curPC.branch(inRange) {
-		panic(targetPanic{iface{fr.i.runtimeErrorString, "index out of range (symbolic)"}})
+		// the runtime's message embeds the index: render it with the real strconv
+		var msg value = "index out of range (symbolic)"
+		func() {
+			defer func() {
+				if r := recover(); r != nil {
+					if _, ok := r.(pathStop); ok {
+						panic(r)
+					}
+				}
+			}()
+			fn := curInterp.prog.ImportedPackage("strconv").Func("FormatInt")
+			d := call(curInterp, nil, token.NoPos, fn, []value{curTT.wrap(it, types.Int64), 10})
+			m := append(toSymstr("index out of range ["), toSymstr(d)...)
+			m = append(m, toSymstr(fmt.Sprintf("] with length %d", len(cells)))...)
+			msg = normStr(m)
+		}()
+		panic(targetPanic{iface{fr.i.runtimeErrorString, msg}})
 	}
 	return &symElemPtr{cells, it}
 }
@@ -712,6 +728,8 @@ func (w *Worker) collect(t *Task, pc *pathCtx, outcome string, res *TaskResult, 
 	}
 }
 
+var sharedGlobals = map[*Program]map[*ssa.Global]*value{}
+
 func runOnce(p *Program, t *Task) (outcome string) {
 	mainpkg := p.Harness
 	i := &interpreter{
@@ -733,14 +751,6 @@ func runOnce(p *Program, t *Task) (outcome string) {
 	pathSteps = 0
 	pathDeadline = time.Now().Add(30 * time.Second)
 	resetModels(t)
-	for _, pkg := range i.prog.AllPackages() {
-		for _, m := range pkg.Members {
-			if v, ok := m.(*ssa.Global); ok {
-				cell := zero(mustDeref(v.Type()))
-				i.globals[v] = &cell
-			}
-		}
-	}
 	defer func() {
 		if i.mode&DisableRecover != 0 {
 			return
@@ -766,7 +776,27 @@ func runOnce(p *Program, t *Task) (outcome string) {
 			}
 		}
 	}()
+	// Standard-library package state (lookup tables, sentinel errors) is
+	// initialised once per program and shared by all paths: the target
+	// never mutates it (sync.Pool contents live in the engine's own model).
+	shared := sharedGlobals[p]
+	for g, cell := range shared {
+		i.globals[g] = cell
+	}
 	call(i, nil, token.NoPos, mainpkg.Func("init"), nil)
+	if shared == nil {
+		shared = map[*ssa.Global]*value{}
+		for g, cell := range i.globals {
+			if g.Pkg != nil && !strings.HasPrefix(g.Pkg.Pkg.Path(), "github.com/cockroachdb/redact") {
+				shared[g] = cell
+			}
+		}
+		sharedGlobals[p] = shared
+	}
+	if os.Getenv("GOSYM_STEPS") != "" {
+		fmt.Fprintln(os.Stderr, "steps after init:", pathSteps)
+		defer func() { fmt.Fprintln(os.Stderr, "steps total:", pathSteps) }()
+	}
 	args := make([]value, len(t.Args))
 	for k, a := range t.Args {
 		args[k] = a
